@@ -247,7 +247,11 @@ func runEnv(r *hx.Run, c hx.Case) {
 		case "R":
 			wantRet = o.vals[0]
 		case "N":
-			wantNotify = strings.Join(o.vals, ",")
+			tv := make([]string, len(o.vals))
+			for j, v := range o.vals {
+				tv[j] = strings.TrimSpace(v)
+			}
+			wantNotify = strings.Join(tv, ",")
 		}
 	}
 	for i, l := range raw {
@@ -259,6 +263,9 @@ func runEnv(r *hx.Run, c hx.Case) {
 			cls := "path-not-rfc5321"
 			if i < len(want) && addrx.NeedsQuoting(want[i].Local) {
 				cls = "unquoted-local-part"
+			}
+			if strings.Contains(err.Error(), "esmtp-param") || strings.Contains(err.Error(), "text after '>'") {
+				cls = "esmtp-parameter-malformed"
 			}
 			r.Fail(c.ID, cls, fmt.Sprintf("%q: %v (intended mailbox %q)", l, err, mbString(want, i)))
 			continue
@@ -281,13 +288,18 @@ func runEnv(r *hx.Run, c hx.Case) {
 				own = append(own, "SMTPUTF8")
 			}
 			if caps[2] == '1' && wantRet != "" {
-				own = append(own, "RET="+wantRet)
+				own = append(own, "RET="+strings.ToUpper(strings.TrimSpace(wantRet)))
 			}
 		}
 		if pl.Verb == "RCPT" && caps != "h" && caps[2] == '1' && wantNotify != "" {
-			own = append(own, "NOTIFY="+wantNotify)
+			own = append(own, "NOTIFY="+strings.ToUpper(wantNotify))
 		}
-		if strings.Join(own, " ") != strings.Join(pl.Params, " ") {
+		// the DSN keywords are case-insensitive (RFC 3461): compared in upper case; their values must be well-formed
+		gotParams, badParam := normParams(pl.Params)
+		if badParam != "" {
+			r.Fail(c.ID, "dsn-parameter-not-rfc3461", fmt.Sprintf("%q: parameter %q", l, badParam))
+		}
+		if strings.Join(own, " ") != strings.Join(gotParams, " ") {
 			r.Fail(c.ID, "foreign-esmtp-parameter", fmt.Sprintf("%q carries parameters %q, the client's own are %q", l, pl.Params, own))
 		}
 	}
@@ -423,6 +435,125 @@ func runAuth(r *hx.Run, c hx.Case) {
 	}
 	if !seen {
 		r.Dist["auth:no-auth-line"]++
+	}
+}
+
+// rfc3461 normalises a DSN parameter (RFC 3461 sections 4.1, 4.3: the keywords are case-insensitive) and tells
+// whether its value is well-formed: RET=FULL|HDRS, NOTIFY=NEVER | comma list of SUCCESS / FAILURE / DELAY.
+// Other parameters are returned as they are.
+func rfc3461(p string) (string, bool) {
+	up := strings.ToUpper(p)
+	switch {
+	case strings.HasPrefix(up, "RET="):
+		v := up[4:]
+		return up, v == "FULL" || v == "HDRS"
+	case strings.HasPrefix(up, "NOTIFY="):
+		v := up[7:]
+		if v == "NEVER" {
+			return up, true
+		}
+		for _, e := range strings.Split(v, ",") {
+			if e != "SUCCESS" && e != "FAILURE" && e != "DELAY" {
+				return up, false
+			}
+		}
+		return up, true
+	}
+	return p, true
+}
+
+func normParams(l []string) ([]string, string) {
+	out := make([]string, len(l))
+	bad := ""
+	for i, p := range l {
+		n, ok := rfc3461(p)
+		out[i] = n
+		if !ok {
+			bad = p
+		}
+	}
+	return out, bad
+}
+
+// runDSNSet: direct smtp.Client use with the raw setters SetDSNMailReturnOption / SetDSNRcptNotifyOption, then
+// Mail, Rcpt, Quit.  Oracle only: Mail / Rcpt either refuse (error, nothing written) or the line is one line whose
+// RET / NOTIFY parameter is the configured keyword (any letter case) per RFC 3461; without DSN in the EHLO reply
+// no such parameter is sent.
+func runDSNSet(r *hx.Run, c hx.Case) {
+	if len(c.Args) < 3 {
+		r.AddOracleOnly(c, false)
+		return
+	}
+	ret, notify := string(hx.UnHex(c.Args[1])), string(hx.UnHex(c.Args[2]))
+	caps := []string{"8BITMIME"}
+	if c.Args[0] == "1" {
+		caps = append(caps, "DSN")
+	}
+	srv := smtpx.NewServer(caps, nil)
+	cc, sc := smtpx.NewPair()
+	go srv.Serve(sc)
+	_ = cc.SetDeadline(time.Now().Add(5 * time.Second))
+	cl, err := smtp.NewClient(cc, "mx.verif.test")
+	if err != nil {
+		_ = cc.Close()
+		srv.Finish(2 * time.Second)
+		r.AddOracleOnly(c, false)
+		return
+	}
+	cl.SetDSNMailReturnOption(ret)
+	cl.SetDSNRcptNotifyOption(notify)
+	_ = cl.Hello("client.verif.test")
+	mailErr := cl.Mail("sender@origin.test")
+	rcptErr := cl.Rcpt("rcpt@x.test")
+	_ = cl.Quit()
+	_ = cl.Close()
+	srv.Finish(2 * time.Second)
+	trace, _ := srv.Snapshot()
+	r.AddOracleOnly(c, ret != strings.TrimSpace(ret) || notify != strings.TrimSpace(notify) || strings.ContainsAny(ret+notify, " \r\n"))
+	tap := string(cc.Written())
+	if n := strings.Count(tap, "\r\n"); n != len(trace)-1 || (len(tap) > 0 && !strings.HasSuffix(tap, "\r\n")) {
+		r.Fail(c.ID, "command-lines-not-one-per-command", fmt.Sprintf("the client wrote %d CRLF-terminated lines, the server read %d commands: %q", n, len(trace)-1, tap))
+	}
+	seen := map[string]int{}
+	for _, e := range trace {
+		if e.Verb == "GREETING" {
+			continue
+		}
+		if strings.ContainsAny(e.Line, "\r\n") || !e.Legal && (strings.Contains(e.Why, "CR/LF") || strings.Contains(e.Why, "CRLF")) {
+			r.Fail(c.ID, "command-line-with-cr-lf", fmt.Sprintf("%q (%s)", e.Line, e.Why))
+		}
+		seen[e.Verb]++
+		if (e.Verb != "EHLO" && e.Verb != "MAIL" && e.Verb != "RCPT" && e.Verb != "QUIT") || seen[e.Verb] > 1 {
+			r.Fail(c.ID, "unintended-command-line", fmt.Sprintf("the server received %q (RET %q, NOTIFY %q)", e.Line, ret, notify))
+			continue
+		}
+		if e.Verb != "MAIL" && e.Verb != "RCPT" {
+			continue
+		}
+		if e.Verb == "MAIL" && mailErr != nil || e.Verb == "RCPT" && rcptErr != nil {
+			r.Fail(c.ID, "line-written-although-refused", fmt.Sprintf("%q although the call returned an error (Mail: %v, Rcpt: %v)", e.Line, mailErr, rcptErr))
+		}
+		pl, perr := addrx.ParsePathLine(e.Line, false)
+		if perr != nil {
+			r.Fail(c.ID, "esmtp-parameter-malformed", fmt.Sprintf("%q: %v (RET %q, NOTIFY %q)", e.Line, perr, ret, notify))
+			continue
+		}
+		got, bad := normParams(pl.Params)
+		if bad != "" {
+			r.Fail(c.ID, "dsn-parameter-not-rfc3461", fmt.Sprintf("%q: parameter %q", e.Line, bad))
+		}
+		var own []string
+		if e.Verb == "MAIL" {
+			own = append(own, "BODY=8BITMIME")
+			if c.Args[0] == "1" && ret != "" {
+				own = append(own, "RET="+strings.ToUpper(ret))
+			}
+		} else if c.Args[0] == "1" && notify != "" {
+			own = append(own, "NOTIFY="+strings.ToUpper(notify))
+		}
+		if strings.Join(own, " ") != strings.Join(got, " ") {
+			r.Fail(c.ID, "foreign-esmtp-parameter", fmt.Sprintf("%q carries parameters %q, configured are %q", e.Line, pl.Params, own))
+		}
 	}
 }
 
@@ -690,6 +821,8 @@ func runCase(r *hx.Run, c hx.Case) {
 		runSMTPSeq(r, c)
 	case "envseq":
 		runEnvSeq(r, c)
+	case "dsnset":
+		runDSNSet(r, c)
 	default:
 		r.Add(c, "BAD-CASE", false)
 	}
@@ -791,6 +924,54 @@ func Run(r *hx.Run, replay []hx.Case) {
 	for _, n := range heloNames {
 		runCase(r, heloCase(r, n, false))
 		runCase(r, heloCase(r, n, true))
+	}
+	// DSN option values: every keyword x {as is, lower / mixed case, blanks, TAB, CR, LF, CRLF, embedded blank, comma,
+	// empty, NUL, smuggled command / parameter} through the options of mail.Client (DSN advertised and not) and
+	// through the raw setters of smtp.Client
+	variants := func(k string) []string {
+		mixed := strings.ToLower(k[:1]) + k[1:]
+		return []string{k, strings.ToLower(k), mixed, " " + k, k + " ", "\t" + k, k + "\r", k + "\n", k + "\r\n", k[:2] + " " + k[2:], k + ",", "",
+			k + "\x00", k + "\r\nRSET", k + " X=y"}
+	}
+	for _, capsDSN := range []string{"111", "110"} {
+		for _, k := range []string{"FULL", "HDRS"} {
+			for _, v := range variants(k) {
+				runCase(r, envCase(r, capsDSN, []dsnOpt{{kind: "R", vals: []string{v}}}, "sender@origin.test", []string{"rcpt@x.test"}))
+			}
+		}
+		for _, k := range notifyOpts {
+			for i, v := range variants(k) {
+				vals := []string{v}
+				if k != "NEVER" && i%2 == 0 {
+					vals = append(vals, "FAILURE")
+				}
+				if k != "NEVER" && i%3 == 0 {
+					vals = append([]string{"DELAY"}, vals...)
+				}
+				runCase(r, envCase(r, capsDSN, []dsnOpt{{kind: "N", vals: vals}}, "sender@origin.test", []string{"rcpt@x.test", "second@x.test"}))
+			}
+		}
+	}
+	for _, adv := range []string{"1", "0"} {
+		for _, k := range []string{"FULL", "HDRS"} {
+			for _, v := range variants(k) {
+				if strings.HasSuffix(v, ",") {
+					continue
+				}
+				runCase(r, hx.Case{ID: r.NewID(), Kind: "dsnset", Args: []string{adv, hx.Hex([]byte(v)), hx.Hex([]byte("SUCCESS,FAILURE"))}})
+			}
+		}
+		for _, k := range notifyOpts {
+			for _, v := range variants(k) {
+				if strings.HasSuffix(v, ",") {
+					continue
+				}
+				runCase(r, hx.Case{ID: r.NewID(), Kind: "dsnset", Args: []string{adv, hx.Hex([]byte("FULL")), hx.Hex([]byte(v))}})
+				if k != "NEVER" && v != "" {
+					runCase(r, hx.Case{ID: r.NewID(), Kind: "dsnset", Args: []string{adv, "~", hx.Hex([]byte("DELAY," + v))}})
+				}
+			}
+		}
 	}
 	// recipients added in two and three steps on one header; the first entry has no display name and a local part
 	// that needs quoting (it is re-serialised and re-parsed by every following Add)
